@@ -1,6 +1,7 @@
 """C16 - with auth on, no data endpoint (HTTP or gRPC) is served without a valid token."""
 import json
 import os
+import re
 import shutil
 
 import vlib
@@ -38,6 +39,7 @@ def run(tier):
         c.violation("C16:%s@%s:%s:%s" % (req, o["method"], o["canon"], o["spelling"]),
                     "OpenAPI requirement %s fails for %s %s (%s): served for credentials %s" % (req, o["method"], o["path"], o["spelling"], bad),
                     {"observation": o, "requirement": req})
+    grpc_leg(c, sc)
     n_dec = sum(len(o["d"]) for o in obs)
     reached = [o for o in obs if any(o["tokstate"][t] == "valid" and d == "handled" for t, d in o["d"].items())]
     c.count(n_dec, [{"p": o["path"], "m": o["method"]} for o in reached])
@@ -53,8 +55,12 @@ def run(tier):
     c.assumptions += [
         "auth switched on through RNACOS_ENABLE_OPEN_API_AUTH in the booted node; API tokens are placed in the token cache "
         "directly (valid / expired); middleware, routing and handlers are the real ones (in-process actix service)",
-        "gRPC request types and the cluster token are covered by the gRPC leg (InvokerHandler) below when enabled; "
         "HTTP leg: every route x 6 spellings x 4 methods x 5 token states x 5 carriers",
+        "gRPC leg: the real tonic Request / BiRequestStream services wired as in main.rs, served on a loopback port of a "
+        "single-member node (auth on, cluster token configured); every registered request type (+ ServerCheckRequest + one "
+        "unregistered name) x {accessToken, Authorization} x 5 token states x 7 cluster-token states (absent, empty, garbage, "
+        "proper prefix, extension, other case, exact) over a channel with an established bi-stream; bodies are real effective "
+        "requests; 'without touching data' = digest of configs and instances unchanged and no seeded marker in the answer",
         "'no data served' is judged by the decision (403 / no route), not by diffing state",
     ]
     shutil.rmtree(sc, ignore_errors=True)
@@ -63,9 +69,55 @@ def run(tier):
              "{GET,POST,PUT,DELETE} x token state {absent, empty, garbage, expired, valid} x carrier {Authorization raw, "
              "Bearer, accessToken header, query, form body} executed on the real app with the real ApiCheckAuth "
              "middleware; TLC evaluates NoDataWithoutToken (scope /nacos/ and /rnacos/v1/, exemptions as in the property) "
-             "and ValidTokenPasses on every observation; non-trivial = groups that reach a handler with a valid token",
+             "and ValidTokenPasses on every observation; gRPC: GrpcNoDataWithoutToken, GrpcValidTokenPasses, "
+             "ClusterNeedsClusterToken, ClusterTokenPasses on every (type, carrier, token, cluster token); non-trivial = groups that reach a handler with a valid token",
         exhaustive=True,
         checker_cmd="tools/vcheck C16 --tier %s" % tier)
+
+
+def grpc_leg(c, sc):
+    """every registered gRPC request type x carrier x token state x cluster-token state on the real tonic services"""
+    res = vlib.harness(["authz", "grpc-inventory"], timeout=300)
+    types = next(r["types"] for r in res if r.get("kind") == "types")
+    if len(types) < 12:
+        raise ToolError("gRPC handler inventory too small: %s" % types)
+    # ServerCheckRequest is answered before the handler table; one unregistered name stands for any future data type
+    types = sorted(set(types) | {"ServerCheckRequest", "UnknownFutureQueryRequest"})
+    tf = vlib.write_ndjson(os.path.join(sc, "types.ndjson"), [{"type": t, "words": re.findall(r"[A-Z][a-z0-9]*", t)} for t in types])
+    out, st = ac.tlc_authz("geng", {"ROUTES": tf, "OBS": tf}, "c16_geng")
+    c.add_mc(dict(st, depth=2, wall_s=0, actions={}))
+    reqs = vlib.parse_replay_lines(out)
+    want = len(types) * (1 + 4 * 2) * 7
+    if len(reqs) != want:
+        raise ToolError("TLC enumerated %d gRPC requests, expected %d" % (len(reqs), want))
+    for i, r in enumerate(reqs):
+        r["id"] = i
+    qf = vlib.write_ndjson(os.path.join(sc, "greqs.ndjson"), reqs)
+    res = vlib.harness(["authz", "grpc", qf], timeout=3000)
+    obs = [r for r in res if r.get("kind") == "obs"]
+    if len(obs) != len(reqs):
+        raise ToolError("gRPC harness answered %d of %d requests" % (len(obs), len(reqs)))
+    of = vlib.write_ndjson(os.path.join(sc, "gobs.ndjson"), obs)
+    out, st2 = ac.tlc_authz("chkg", {"ROUTES": tf, "OBS": of}, "c16_chkg")
+    c.add_mc(dict(st2, depth=2, wall_s=0, actions={}))
+    for req, i in ac.failed_requirements(out):
+        o = obs[i - 1]
+        c.violation("C16:%s@grpc:%s:tok=%s:ctok=%s" % (req, o["type"], o["tok"], o["ctok"]),
+                    "gRPC requirement %s fails for %s (token %s in %s, cluster token %s): decision %s, changed=%s, leaked=%s, answer %s"
+                    % (req, o["type"], o["tok"], o["carrier"], o["ctok"], o["d"], o["changed"], o["leaked"], o["text"][:100]),
+                    {"observation": o, "requirement": req})
+    eff_w = [o for o in obs if o["d"] == "handled" and o["changed"]]
+    eff_r = [o for o in obs if o["d"] == "handled" and o["leaked"]]
+    if len({o["type"] for o in eff_w}) < 6 or len({o["type"] for o in eff_r}) < 4:
+        raise ToolError("gRPC leg vacuous: accepted requests change data for %s and return data for %s"
+                        % (sorted({o["type"] for o in eff_w}), sorted({o["type"] for o in eff_r})))
+    c.cov["grpc_types"] = types
+    c.cov["grpc_requests"] = len(obs)
+    c.cov["grpc_decisions"] = {d: sum(1 for o in obs if o["d"] == d) for d in sorted({o["d"] for o in obs})}
+    c.cov["grpc_types_changing_data_when_accepted"] = sorted({o["type"] for o in eff_w})
+    c.cov["grpc_types_returning_data_when_accepted"] = sorted({o["type"] for o in eff_r})
+    c.count(len(obs), [{"t": o["type"], "tok": o["tok"], "ctok": o["ctok"], "c": o["carrier"]} for o in obs if o["d"] in ("refused_auth", "refused_cluster")])
+    c.traces(len(obs))
 
 
 def replay(path):
